@@ -15,6 +15,8 @@ Operation tokens (the harness vocabulary; `model_token` maps them to the model's
     c:<V>:<m>[:<f>]   decorated sift call; V in N (verbose=None) O (verbose omitted) C W I D, or an UNDOCUMENTED verbosity
                   B (verbose='debug') T (verbose=10) U (verbose='nonsense');
                   m = r (returns) | x (raises: input shape (n,2,3) rejected) | y (raises: no convergence)
+                    | i (the call is interrupted: KeyboardInterrupt raised from inside the sift, by the harness-owned signal
+                         array at the first numpy ufunc applied to it) | q (SystemExit raised the same way)
                     | k (the signal passed by keyword, sift(X=x): sift_logger formats args[0].shape eagerly -> IndexError
                          in every logger state; the expected outcome is whatever the untouched-logger baseline shows);
                   f = s (sift, default) | m (mask_sift) | a (mask_sift with array keyword arguments) | e (ensemble_sift, seeded) | c (complete_ensemble_sift, seeded)
@@ -37,23 +39,25 @@ NUM = {'C': 50, 'E': 40, 'W': 30, 'I': 20, 'D': 10}
 VERB = ['N', 'C', 'W', 'I', 'D']
 ALPHABET = (['su:' + l for l in VERB] + ['sl:' + l for l in 'CWID'] + ['dis', 'en'] +
             ['c:%s:r' % v for v in VERB] + ['c:%s:x' % v for v in VERB])
-OWN_ERROR = {'x': 'ValueError', 'y': 'EMDSiftCovergeError'}
+INTERRUPT = {'i': KeyboardInterrupt, 'q': SystemExit}
 BAD_VERB = {'B': 'debug', 'T': 10, 'U': 'nonsense'}           # not level names of `logging`: outside the documented values
-WRAP_ERROR = {'B': 'TypeError', 'T': 'TypeError', 'U': 'AttributeError'}   # what set_level raises on them once a console exists
 
 
 def baseline_key(tok):
+    """the reference a call is compared with: the same signal, function and way of raising under an UNTOUCHED logger and
+    without a verbose argument (what the call does as such - return, raise ValueError, ... - is not C20's business; that it does
+    the same in every logger state and for every verbosity is)"""
     v, mode, fn = parse_call(tok)
-    return 'k' if mode == 'k' else fn
+    return '%s:%s' % (mode, fn)
 
 
 def own_error(tok, baseline):
-    """The error a raising call is expected to raise as its own (mode k: what the untouched-logger baseline shows)."""
-    mode = parse_call(tok)[1]
-    if mode == 'k':
-        b = str(baseline.get('k'))
-        return b[6:] if b.startswith('error:') else None
-    return OWN_ERROR.get(mode)
+    """The error a call raises as its own according to the untouched-logger baseline (None: it returns there)."""
+    b = str(baseline.get(baseline_key(tok)))
+    return b[6:] if b.startswith('error:') else None
+
+
+UNSTABLE = 'unstable'       # baseline marker: a seeded stochastic variant whose two identically seeded runs differ
 CHILD_BUDGET_S = 300
 
 
@@ -63,6 +67,40 @@ def signal_of(sig_id, n=96):
     r = np.random.RandomState(1000 + sig_id)
     return (np.sin(2 * np.pi * (5 + sig_id) * t) + 0.5 * np.sin(2 * np.pi * (17 + 2 * sig_id) * t + 0.3)
             + t + 0.05 * r.randn(n))
+
+
+_PROBE = {'on': False, 'pid': None, 'levels': set(), 'raise': None}
+
+
+def _level():
+    """console level as an integer: -1 = no console handler (get_level() is None), -2 = not interpretable"""
+    import logging
+    import emd
+    lvl = emd.logger.get_level()
+    if lvl is None:
+        return -1
+    try:
+        return int(lvl)
+    except (TypeError, ValueError):
+        n = logging.getLevelName(str(lvl))
+        return n if isinstance(n, int) else -2
+
+
+class Probe(np.ndarray):
+    """The harness-owned signal array. Every numpy ufunc applied to it (or to a view / copy of it) INSIDE the decorated call,
+    in the observing process, (a) samples the console level in force at that moment - this is how "the override is in force
+    for that call" is observed, independent of any log wording - and (b) raises KeyboardInterrupt / SystemExit when the call
+    is to be interrupted. The ufunc itself is evaluated on plain ndarray views, so the numbers are those of a plain array."""
+
+    def __array_ufunc__(self, ufunc, method, *inputs, out=None, **kw):
+        if _PROBE['on'] and os.getpid() == _PROBE['pid']:
+            _PROBE['levels'].add(_level())
+            if _PROBE['raise'] is not None:
+                raise _PROBE['raise']()
+        ins = tuple(i.view(np.ndarray) if isinstance(i, Probe) else i for i in inputs)
+        if out is not None:
+            kw['out'] = tuple(o.view(np.ndarray) if isinstance(o, Probe) else o for o in out)
+        return getattr(ufunc, method)(*ins, **kw)
 
 
 def is_call(tok):
@@ -79,10 +117,8 @@ def model_token(tok, baseline=None):
     if p[0] == 'suf':
         return 'su:' + p[1]
     if p[0] == 'c':
-        if p[2] == 'k':
-            returns = not str((baseline or {}).get('k')).startswith('error:')
-        else:
-            returns = p[2] == 'r'
+        # whether the body returns or raises is an INPUT of the model: read off the untouched-logger baseline
+        returns = own_error(tok, baseline or {}) is None
         if p[1] in BAD_VERB:
             return 'cb:%s' % ('r' if returns else 'x')
         return 'c:%s:%s' % ('N' if p[1] == 'O' else p[1], 'r' if returns else 'x')
@@ -90,7 +126,12 @@ def model_token(tok, baseline=None):
 
 
 def digest(a):
-    a = np.ascontiguousarray(a)
+    """all returned arrays (a tuple result: every element)"""
+    if isinstance(a, (tuple, list)):
+        return hashlib.sha1('|'.join(digest(x) for x in a).encode()).hexdigest()[:16]
+    if a is None:
+        return 'none'
+    a = np.ascontiguousarray(np.asarray(a).view(np.ndarray) if isinstance(a, np.ndarray) else np.asarray(a))
     return hashlib.sha1(repr((a.shape, str(a.dtype))).encode() + a.tobytes()).hexdigest()[:16]
 
 
@@ -101,12 +142,14 @@ def _call(tok, env):
     kw = {}
     if v != 'O':
         kw['verbose'] = None if v == 'N' else BAD_VERB[v] if v in BAD_VERB else LEVELS[v]
-    if mode == 'k':
-        return emd.sift.sift(X=x, max_imfs=3, **kw)
     if mode == 'x':
         x = np.tile(x[:, None, None], (1, 2, 3))
     elif mode == 'y':
         kw['imf_opts'] = {'max_iters': 1, 'sd_thresh': 1e-300}
+    x = np.ascontiguousarray(x).view(Probe)
+    _PROBE['raise'] = INTERRUPT.get(mode)
+    if mode == 'k':
+        return emd.sift.sift(X=x, max_imfs=3, **kw)
     if fn == 's':
         return emd.sift.sift(x, max_imfs=3, **kw)
     if fn == 'm':
@@ -150,22 +193,27 @@ def _exec(tok, env):
 
 
 def observe(tok, env):
-    """Execute one operation in THIS process; return [level after, error kind, output digest, info shown, debug shown]."""
-    import emd
+    """Execute one operation in THIS process; return
+    [level after, error kind, output digest, info text shown, debug text shown, console levels sampled inside the call]."""
     from common.framework import err_kind
     buf = env['out']
     mark = len(buf.getvalue())
     err, dig = None, None
+    _PROBE.update(on=is_call(tok), pid=os.getpid(), levels=set(), **{'raise': None})
     try:
         r = _exec(tok, env)
         if r is not None:
-            dig = digest(r[0] if isinstance(r, tuple) else r)
+            _PROBE['on'] = False
+            dig = digest(r)
+    except (KeyboardInterrupt, SystemExit) as e:      # raised by the harness's own probe from inside the call
+        err = err_kind(e)
     except Exception as e:  # noqa
         err = err_kind(e)
+    finally:
+        _PROBE['on'] = False
+        _PROBE['raise'] = None
     text = buf.getvalue()[mark:]
-    lvl = emd.logger.get_level()
-    return [-1 if lvl is None else int(lvl), err, dig,
-            int('STARTED: ' in text), int('Input data size' in text)]
+    return [_level(), err, dig, int('STARTED: ' in text), int('Input data size' in text), sorted(_PROBE['levels'])]
 
 
 def _explore(depth, alphabet, env):
@@ -176,7 +224,7 @@ def _explore(depth, alphabet, env):
     for tok in alphabet:
         payload = _in_child(lambda: _node(tok, depth, alphabet, env))
         if not isinstance(payload, list):
-            payload = [[None, 'ChildDied', None, 0, 0], []]
+            payload = [[None, 'ChildDied', None, 0, 0, []], []]
         res.append([tok] + payload)
     return res
 
@@ -240,7 +288,7 @@ def _history_root(start, prefix, depth, alphabet, sig, tmp):
     fresh = emd.logger.get_level() is None and logging.root.manager.disable == 0
     if start:
         emd.logger.set_up()
-    lvl0 = emd.logger.get_level()
+    lvl0 = _level()
     recs = [observe(t, env) for t in prefix]
     tree = _explore(depth, alphabet, env)
     logsize = -1
@@ -249,20 +297,67 @@ def _history_root(start, prefix, depth, alphabet, sig, tmp):
         logging.shutdown()
         logsize = os.path.getsize(lf)
     # the tree is carried as one JSON string so that the evidence file shows it abbreviated
-    return {'fresh': int(fresh), 'lvl0': -1 if lvl0 is None else int(lvl0), 'recs': recs, 'tree': json.dumps(tree),
+    return {'fresh': int(fresh), 'lvl0': lvl0, 'recs': recs, 'tree': json.dumps(tree),
             'stderr_logging_error': int('--- Logging error ---' in env['errout'].getvalue()),
             'logsize': logsize}
 
 
-def _baseline_root(sig, fns):
-    """Reference outputs: untouched logger, no verbose argument."""
+def _baseline_root(sig, keys):
+    """Reference outcomes: untouched logger, no verbose argument; one per (way of raising, function). A seeded stochastic
+    variant is run twice: when the two runs differ (the library does not draw from the legacy global generator that
+    np.random.seed controls) it is marked UNSTABLE and no value claim is made for it."""
     env = {'out': io.StringIO(), 'sig': sig, 'tmp': None}
     sys.stdout = env['out']
     out = {}
-    for fn in fns:
-        rec = observe('c:O:k' if fn == 'k' else 'c:O:r:' + fn, env)
-        out[fn] = rec[2] if rec[1] is None else 'error:' + str(rec[1])
+    for key in keys:
+        mode, fn = key.split(':')
+        rec = observe('c:O:%s:%s' % (mode, fn), env)
+        out[key] = rec[2] if rec[1] is None else 'error:' + str(rec[1])
+        if fn in 'ec':
+            rec2 = observe('c:O:%s:%s' % (mode, fn), env)
+            if (rec2[2] if rec2[1] is None else 'error:' + str(rec2[1])) != out[key]:
+                out[key] = UNSTABLE
     return out
+
+
+def call_free(toks):
+    """the history with every decorated call removed"""
+    return [t for t in toks if not is_call(t)]
+
+
+def _free_root(start, prefix, depth, alphabet, tmp):
+    """The same logger operations WITHOUT any decorated call in between: the levels a history must show if calls leave
+    nothing behind in the logger ("an override is in force only for that call", "... before set_up is harmless")."""
+    env = {'out': io.StringIO(), 'errout': io.StringIO(), 'sig': 0, 'tmp': tmp}
+    sys.stdout = env['out']
+    sys.stderr = env['errout']
+    import emd
+    if start:
+        emd.logger.set_up()
+    lvl0 = _level()
+    recs = [observe(t, env)[:2] for t in prefix]
+    tree = _explore(depth, alphabet, env)
+    return {'lvl0': lvl0, 'recs': recs, 'tree': json.dumps(tree)}
+
+
+def free_levels(out, toks):
+    """[(level, error)] after each logger operation of `toks` in the call-free run, or None if that run does not hold it"""
+    fr = out.get('free')
+    if not fr:
+        return None
+    want = call_free(toks)
+    res = [tuple(r[:2]) for r in fr['recs']]
+    n = len(res)
+    if want[:n] != fr['prefix']:
+        return None
+    nodes = json.loads(fr['tree'])
+    for t in want[n:]:
+        hit = [nd for nd in nodes if nd[0] == t]
+        if not hit:
+            return None
+        res.append(tuple(hit[0][1][:2]))
+        nodes = hit[0][2]
+    return res
 
 
 def run_history(start, prefix, depth=0, alphabet=ALPHABET, sig=0):
@@ -276,6 +371,11 @@ def run_history(start, prefix, depth=0, alphabet=ALPHABET, sig=0):
         if not isinstance(out, dict) or '__child_error__' in out:
             raise RuntimeError('history child died or timed out: %r' % (out,))
         out['baseline'] = base
+        fpre = call_free(prefix)
+        free = _in_child(lambda: _free_root(start, fpre, depth, call_free(alphabet) if depth > 0 else [], tmp or ''))
+        if isinstance(free, dict) and '__child_error__' not in free:
+            free['prefix'] = fpre
+            out['free'] = free
         return out
     finally:
         if tmp:
